@@ -49,7 +49,7 @@ class Mod:
     ignored: set = field(default_factory=set)     # deps whose import line carries `# type: ignore`
 
 
-USE_KINDS = ["call", "val", "sub", "via"]
+USE_KINDS = ["call", "val", "sub", "via", "final"]
 
 
 def render(m: Mod, world: "World") -> str:
@@ -79,6 +79,8 @@ def render(m: Mod, world: "World") -> str:
     ret = LIT[m.ret_t]
     body.append(f"def f_{me}(x: {m.par_t}) -> {m.ret_t}:\n    k = {m.body}\n    return {ret}")
     body.append(f"def mk_{me}() -> C_{me}:\n    return C_{me}()")
+    # a falsy Final constant and a tuple it indexes: what importers see depends on the constant's stored value
+    body.append(f"K_{me}: Final = 0\nROW_{me}: tuple[int, str] = (1, 'a')")
     if m.via and pref.get(m.via) is not None:
         d = ident(m.via)
         body.append(f"def via_{me}() -> {pref[m.via]}C_{d}:\n    return {pref[m.via]}mk_{d}()")
@@ -98,6 +100,8 @@ def render(m: Mod, world: "World") -> str:
                 dm = world.mods.get(dep)
                 if dm is not None and dm.via:
                     stmts.append(f"u_via_{me}_{d}: int = {p}via_{d}().val")
+            elif k == "final" and style != "from":
+                stmts.append(f"u_fin_{me}_{d}: int = {p}ROW_{d}[{p}K_{d}]")
             elif k == "sub" and style != "func":
                 stmts.append(f"class D_{me}_{d}({p}C_{d}):\n    def meth(self, a: int) -> int:\n        return a")
         if style == "func":
@@ -107,7 +111,7 @@ def render(m: Mod, world: "World") -> str:
             body.extend(stmts)
     if m.local_error:
         body.append(f"bad_{me}: int = 'oops'")
-    return "\n".join(top + body + lazy) + "\n"
+    return "\n".join(["from typing import Final"] + top + body + lazy) + "\n"
 
 
 def render_stub(m: Mod) -> str:
@@ -339,8 +343,8 @@ def scripted_histories() -> list:
         # m0 -> m1 -> m2 ; m0 reads m2's class only through m1.via_m1()  (indirect dependency)
         w = World()
         w.mods["m2"] = Mod("m2", val_t="int")
-        w.mods["m1"] = Mod("m1", imports={"m2": "import"}, uses={"m2": ["call"]}, via="m2")
-        w.mods["m0"] = Mod("m0", imports={"m1": "import"}, uses={"m1": ["via", "call"]})
+        w.mods["m1"] = Mod("m1", imports={"m2": "import"}, uses={"m2": ["call", "final"]}, via="m2")
+        w.mods["m0"] = Mod("m0", imports={"m1": "import"}, uses={"m1": ["via", "call", "final"]})
         return w
 
     hist("indirect", base3(),
